@@ -68,6 +68,7 @@ M0 == [cfg |-> [retries |-> 1, cap |-> 1, ttl |-> 1],
        sent |-> {},      \* <<party, plain>> the party really encrypted
        proved |-> {},    \* <<id, sock>> for which the holder of id's key took part
        wire |-> {},      \* <<key, n, bytes>> of the node's encrypted datagrams
+       nto  |-> {},      \* <<n, to>>: nonce and destination of every datagram the node sent (a WHOAREYOU may only echo one of these from there)
        idns |-> {},      \* <<idn, bytes>>
        cnt  |-> <<>>,    \* one <<rid or nonce, key>> per transmission of a request datagram (retransmissions included)
        hsof |-> {},      \* <<rid, bytes>> handshake datagrams per request
@@ -144,6 +145,7 @@ MonStep(mm, e) ==
                  \cup (IF Kind(e) = "AppRequest" THEN {<<In(e).peer, In(e).addr>>} ELSE {})
                  \cup (IF Kind(e) = "PeerHandshake" /\ ~Unres(e) /\ In(e).party = In(e).claim /\ Get(In(e), "sig", "own") = "own" THEN {<<In(e).claim, In(e).from>>} ELSE {})
       wire1 == mm.wire \cup {<<e.net[i].key, e.net[i].n, e.net[i].bytes>> : i \in {i \in 1..Len(e.net) : e.net[i].key # "none"}}
+      nto1 == mm.nto \cup {<<e.net[i].n, e.net[i].to>> : i \in {i \in 1..Len(e.net) : e.net[i].kind # "way"}}
       idns1 == mm.idns \cup {<<e.net[i].idn, e.net[i].bytes>> : i \in {i \in 1..Len(e.net) : e.net[i].kind = "way"}}
       hsof1 == mm.hsof \cup {<<e.net[i].body.rid, e.net[i].bytes>> : i \in {i \in 1..Len(e.net) : e.net[i].kind = "hs" /\ e.net[i].body.t = "req"}}
       cnt1 == mm.cnt \o [i \in 1..Len(e.net) |-> IF e.net[i].kind = "way" THEN <<"-", "-">>
@@ -156,7 +158,7 @@ MonStep(mm, e) ==
                                           ELSE IF Kind(e) = "AgeSessions" THEN [mm.idle[i] EXCEPT !.u = @ + In(e).units] ELSE mm.idle[i]]
       idle2 == idle1 \o SetToSeq({[key |-> k, u |-> 0] : k \in {k \in used : ~\E i \in 1..Len(mm.idle) : mm.idle[i].key = k}})
   IN [mm EXCEPT !.now = t, !.sub = sub3, !.ints = ints3, !.anon = anon1, !.ways = ways3, !.injs = inj1, !.sent = sent1, !.proved = proved1,
-                !.wire = wire1, !.idns = idns1, !.hsof = hsof1, !.idle = idle2, !.cnt = cnt1]
+                !.wire = wire1, !.nto = nto1, !.idns = idns1, !.hsof = hsof1, !.idle = idle2, !.cnt = cnt1]
 
 \* ---- the property formulas, evaluated on the ledger before the step (mm), the step (e) and the ledger after it (m2)
 Count(S) == Cardinality(S)
@@ -211,6 +213,9 @@ MonViol(mm, m2, e) ==
            ~\E i \in NewNet(e) : e.net[i].kind = "hs" /\ e.net[i].to = In(e).from
         THEN {"C03.WrongSource"} ELSE {})
   \cup (IF \E r \in {x[1] : x \in m2.hsof} : Count({x \in m2.hsof : x[1] = r}) > 1 THEN {"C03.TwoHandshakes"} ELSE {})
+  \* a WHOAREYOU that does not echo the nonce of a datagram the node sent to the address it comes from is not acted on at all
+  \cup (IF Kind(e) = "PeerWhoAreYou" /\ ~Unres(e) /\ <<In(e).echo, In(e).from>> \notin mm.nto /\ (Len(e.out) > 0 \/ NewNet(e) # {})
+        THEN {"C03.ActedOnForeign"} ELSE {})
   \* ---------------- C12 (handler part): an incoming session is reported established only if the UDP address of the record
   \* equals the address the handshake came from (a record without address fields is not admissible downstream anyway)
   \cup (IF \E j \in Evs(e, "Established") : e.out[j].dir = "In" /\ e.out[j].rec # "L:1" /\ RecOf(e.out[j].rec).sock \notin {"none", e.out[j].addr}
